@@ -18,7 +18,7 @@ This file is also imported by checks/C08.py (shared case generation and runners)
 """
 import sys, os; sys.path.insert(0, os.path.join(os.path.dirname(os.path.abspath(__file__)), "..", "lib"))
 import vcommon as V
-import json, random, time, itertools, collections
+import subprocess, json, random, time, itertools, collections
 from pathlib import Path
 
 CID = "C03"
@@ -596,10 +596,14 @@ def main():
     harness = V.build_harness("C03_node")
     res = V.check_properties(CID)
     driver = V.build_model(CID)
+    here = os.path.dirname(os.path.abspath(__file__))
     if "--build-only" in sys.argv:
-        sys.exit(0)
+        sys.exit(subprocess.run([sys.executable, os.path.join(here, "C03b.py"), "--build-only"]).returncode)
     if "--replay" in sys.argv:
-        sys.exit(replay(sys.argv[sys.argv.index("--replay") + 1], harness, driver))
+        rp = sys.argv[sys.argv.index("--replay") + 1]
+        if "/replays/C03b/" in os.path.abspath(rp):     # replays of the frontend-operator layer
+            sys.exit(subprocess.run([sys.executable, os.path.join(here, "C03b.py"), "--replay", rp]).returncode)
+        sys.exit(replay(rp, harness, driver))
 
     rep.add_proof(res)
     cases, ncorpus = all_cases(tier, V.seed())
@@ -683,9 +687,34 @@ def main():
         "modelled, not verified: NodeSemDefs.v/NodeSemReg.v are hand transcriptions of simulateEvaluate etc.; agreement with the C++ is established by this sampled differential run only",
         "operands are given the widths the node expects (no reads beyond an operand); Node_Shift operand and Node_PriorityConditional value/default inputs are connected (the C++ does not check these)",
         "hidden VALUE-plane bits of undefined operand bits are randomised ('X'/'x') to expose dependence on them; the model has no hidden plane",
-        "layer (b) of C03 (frontend operator lowering, FrontendOps) is a separate package; this check covers the hlim node layer",
+        "layer (b) of C03 (frontend operator lowering: FrontendOps*.v, Properties_C03b.v, checks/C03b.py) runs as the second half of this check; its coverage is under coverage.frontend_operator_layer",
         "static mode: registers and export-override nodes are not evaluated by evaluateStatically (skipped); cones consisting only of zero-width signals make extractNonStraddling assert on an empty state vector (counted as empty-state-assert)",
     ]
+    # ---- layer (b): frontend operators (own script, own Coq file); its lines are re-issued under C03
+    p = subprocess.run([sys.executable, os.path.join(here, "C03b.py")], capture_output=True, text=True, errors="replace")
+    evb = {}
+    try:
+        evb = json.load(open(os.path.join(here, "..", "evidence", "C03b.json")))
+    except Exception as e:
+        evb = {"error": "no evidence written by checks/C03b.py: %s" % e}
+    covb = evb.get("coverage", {})
+    rep.cov["frontend_operator_layer"] = {k: v for k, v in covb.items() if k not in ("trusted_base",)}
+    rep.cov["obligations"] += covb.get("obligations", 0); rep.cov["discharged"] += covb.get("discharged", 0)
+    rep.cov["evaluations"] += covb.get("evaluations", 0); rep.cov["distinct_nontrivial"] += covb.get("distinct_nontrivial", 0)
+    rep.cov.setdefault("theorems", []).extend(covb.get("theorems", []))
+    rep.assumptions += ["frontend layer: " + a for a in evb.get("assumptions", [])]
+    seen_known = set(rep.known_hits)
+    nb = 0
+    for line in p.stdout.splitlines():
+        if line.startswith("KNOWN-FINDING: property=C03b "):
+            w = line[len("KNOWN-FINDING: property=C03b "):]
+            if w not in seen_known: rep.known(w); seen_known.add(w)
+        elif line.startswith("VIOLATION property=C03b replay="):
+            rest = line[len("VIOLATION property=C03b replay="):].split()
+            rep.violations.append((rest[0], "no-failing-input-found" in rest[1:])); nb += 1
+    if p.returncode != 0 and nb == 0:
+        rep.violation({"property": CID, "kind": "frontend-operator layer check failed to run", "rc": p.returncode,
+                       "output": (p.stdout + p.stderr)[-2000:]}, nofail=True, tag="layerb")
     rep.finish()
 
 
